@@ -68,6 +68,8 @@ type c15Case struct {
 	Consume  []int // per message: -1 = read to the end, k>=0 = read at most k bytes then abandon
 	ReadSize []int
 	Server   bool
+	Stale    bool // after every NextReader, read the previous message's reader again
+	ReadMsg  bool // use ReadMessage instead of NextReader + Read
 }
 
 func (c c15Case) String() string {
@@ -77,7 +79,7 @@ func (c c15Case) String() string {
 		s = s[:48]
 		suffix = fmt.Sprintf("…(%d bytes)", len(c.Stream))
 	}
-	return fmt.Sprintf("{stream=% x%s tailErr=%v limit=%d readBuf=%d frag=%v consume=%v readSize=%v}", s, suffix, c.TailErr, c.Limit, c.ReadBuf, c.Frag, c.Consume, c.ReadSize)
+	return fmt.Sprintf("{stream=% x%s tailErr=%v limit=%d readBuf=%d frag=%v consume=%v readSize=%v stale=%v readMessage=%v}", s, suffix, c.TailErr, c.Limit, c.ReadBuf, c.Frag, c.Consume, c.ReadSize, c.Stale, c.ReadMsg)
 }
 
 var errTail = errors.New("injected stream failure")
@@ -123,8 +125,54 @@ func runC15(cs c15Case, wts *wt.Server) (viol string, stats map[string]bool) {
 	var firstErr error
 	var lastReader io.Reader
 	i := 0
+	var prevReader io.Reader
+	prevIdx := -1
 	for ; ; i++ {
-		mt, r, err := rc.NextReader()
+		var mt int
+		var r io.Reader
+		var err error
+		if cs.ReadMsg {
+			var data []byte
+			mt, data, err = rc.ReadMessage()
+			if i < len(frames) && frames[i].hdrComplete && !(frames[i].declared >= 1<<63 || (cs.Limit > 0 && frames[i].declared > uint64(cs.Limit))) {
+				// a frame starts here and is within the limit: ReadMessage is NextReader + read to the end
+				f := frames[i]
+				stats["ReadMessage"] = true
+				if uint64(len(data)) > f.declared || len(data) > len(f.avail) {
+					return fmt.Sprintf("ReadMessage #%d returned %d bytes; header declared %d, stream supplied %d", i, len(data), f.declared, len(f.avail)), stats
+				}
+				if f.complete {
+					if err != nil || !bytes.Equal(data, f.avail) || (mt == webtrans.BinaryMessage) != f.bin {
+						return fmt.Sprintf("ReadMessage #%d: complete frame {bin=%v len=%d} read as kind=%d len=%d err=%v", i, f.bin, len(f.avail), mt, len(data), err), stats
+					}
+					stats["complete-message"] = true
+					continue
+				}
+				stats["truncated-payload"] = true
+				if err == nil {
+					return fmt.Sprintf("ReadMessage #%d: stream ends after %d of %d declared bytes but a complete message of %d bytes was returned", i, len(f.avail), f.declared, len(data)), stats
+				}
+				if !cs.TailErr && !isUnexpectedEnd(err) {
+					return fmt.Sprintf("ReadMessage #%d: truncated payload reported as %v, want an unexpected-end error", i, err), stats
+				}
+				firstErr = err
+				break
+			}
+			if err == nil {
+				// let the common code below judge it (it only accepts an error here)
+				r = bytes.NewReader(data)
+			}
+		} else {
+			mt, r, err = rc.NextReader()
+		}
+		if cs.Stale && prevReader != nil && !cs.ReadMsg {
+			// the reader of an earlier message must be dead once NextReader was called again
+			buf := make([]byte, 64)
+			if n, _ := prevReader.Read(buf); n != 0 {
+				return fmt.Sprintf("reader of message #%d returned %d more bytes after NextReader had moved on to message #%d (more than its header declared)", prevIdx, n, i), stats
+			}
+			stats["stale-reader-read"] = true
+		}
 		atEnd := i >= len(frames)
 		var f scanFrame
 		if !atEnd {
@@ -185,6 +233,7 @@ func runC15(cs c15Case, wts *wt.Server) (viol string, stats map[string]bool) {
 			return fmt.Sprintf("message #%d: kind %d, frame binary=%v", i, mt, f.bin), stats
 		}
 		lastReader = r
+		prevReader, prevIdx = r, i
 		mode := -1
 		if len(cs.Consume) > 0 {
 			mode = cs.Consume[i%len(cs.Consume)]
@@ -372,6 +421,8 @@ func TestC15ReaderTotal(t *testing.T) {
 		}
 		cs.ReadSize = rapid.SliceOfN(rapid.IntRange(1, 5000), 1, 3).Draw(rt, "readSize")
 		cs.Server = rapid.Bool().Draw(rt, "server")
+		cs.Stale = rapid.Bool().Draw(rt, "staleReads")
+		cs.ReadMsg = rapid.IntRange(0, 3).Draw(rt, "readMessage") == 0
 		journal("C15 %v", cs)
 		viol, stats := runC15(cs, wts)
 		completeBeforeFault := false
@@ -398,7 +449,7 @@ func TestC15ReaderTotal(t *testing.T) {
 			rt.Fatalf("%s\ncase: %v", viol, cs)
 		}
 	})
-	col.RequireClasses(t, "over-limit", "limit-closed-session", "truncated-payload", "truncated-header", "abandoned", "len>=2^63", "complete-message")
+	col.RequireClasses(t, "over-limit", "limit-closed-session", "truncated-payload", "truncated-header", "abandoned", "len>=2^63", "complete-message", "stale-reader-read", "ReadMessage")
 }
 
 // Truncation at *every* offset of a generated valid stream.
